@@ -208,3 +208,20 @@ def check_same_values(W, name, vals, expected: Lab, hyp=None):
 def check_raises(W, name, out, exc_type):
     nm = exc_type.__name__ if isinstance(exc_type, type) else "_or_".join(t.__name__ for t in exc_type)
     W.prove(f"{name}.raises_{nm}", out.kind == "raise" and isinstance(out.exc, exc_type), detail=repr(out))
+
+
+def span_trap_grid(rng, n, start=2000):
+    """an uneven grid of n >= 4 whole years whose total span is (n-1) times its *first* gap (so tests of evenness that
+    look at the first gap and the span only take it for a regular grid)"""
+    n = max(4, int(n))
+    g = rng.choice([2, 3, 5])
+    rest = [g] * (n - 2)
+    i, j = rng.sample(range(n - 2), 2)
+    d = rng.randrange(1, g)
+    rest[i] -= d
+    rest[j] += d
+    items, y = [start], start
+    for st in [g] + rest:
+        y += st
+        items.append(y)
+    return items
